@@ -73,6 +73,7 @@ class Executor:
         self.functions_executed = set()
         self.fresh = 0
         self.overrides = {}      # callee-name regex -> python function (per-lemma stubs)
+        self.path_budget = None
         from e2 import summaries
         self.summ = summaries.Summaries(self)
         self._index_functions()
@@ -80,6 +81,10 @@ class Executor:
     # ------------------------------------------------------------------ function lookup
     def _index_functions(self):
         self.by_last = {}
+        self.const_index = {}
+        for name in self.funcs:
+            if name.startswith("const ") and "promoted[" not in name:
+                self.const_index.setdefault(name.split("::")[-1].replace("const ", ""), []).append(name)
         for name, f in self.funcs.items():
             if name.startswith(("const ", "promoted[", "?")):
                 continue
@@ -134,6 +139,8 @@ class Executor:
                 continue
             if self_ty is not None:
                 if not f.params:
+                    if strip_ty(f.ret) == self_ty or strip_ty(f.ret).endswith("::" + self_ty) or self_ty.endswith("::" + strip_ty(f.ret)):
+                        good.append(f)
                     continue
                 p0 = strip_ty(f.params[0][1])
                 p0b = p0[5:] if p0.startswith("&mut ") else p0[1:] if p0.startswith("&") else p0
@@ -165,6 +172,16 @@ class Executor:
             return good[0]
         if not good:
             return None
+        if self_ty is None and len(good) > 1:
+            pre = c[: len(c) - len(seg)].rstrip(":")
+            tyname = base_name(split_generic(pre)[0]) if pre else None
+            if tyname:
+                g2 = [f for f in good if f.params and base_name(split_generic(strip_ty(f.params[0][1]).lstrip("&").replace("mut ", "").strip())[0]) == tyname]
+                if len(g2) == 1:
+                    return g2[0]
+                g3 = [f for f in good if base_name(split_generic(strip_ty(f.ret))[0]) == tyname]
+                if len(g3) == 1:
+                    return g3[0]
         # disambiguate by argument kinds (first param type vs value class)
         raise Unsupported("ambiguous callee %s: %s" % (callee, [g.name for g in good]))
 
@@ -172,7 +189,7 @@ class Executor:
     def check(self, st, *extra):
         self.queries += 1
         t0 = time.time()
-        r = self.solver.check(*(st.pc + list(extra)))
+        r = self.solver.check(*(st.pc + self.tc.assumptions + list(extra)))
         self.solver_time += time.time() - t0
         if r == z3.unknown:
             raise Unsupported("solver returned unknown: %s" % self.solver.reason_unknown())
@@ -248,6 +265,8 @@ class Executor:
                 raise Unsupported("read of uninitialised memory")
             if isinstance(v, Opaque):
                 raise Unsupported("field %s of opaque %s" % (idx, v.ty))
+            if isinstance(v, FnVal) and v.env is not None and idx in v.env.fields:
+                return v.env.fields[idx]
             if isinstance(v, Ref) and idx == 0:
                 return v      # newtype-like wrappers around pointers (Unique/NonNull): transparent
             raise Unsupported("field %s of %r" % (idx, v))
@@ -262,6 +281,8 @@ class Executor:
             if v.payload is None:
                 v.payload = Struct(v.ty + "::" + variant, {}, origin=(v.origin + "." + variant) if v.origin else None)
             return v.payload
+        if k == "s":
+            return v.slots[step[1]][1]
         if k == "e":
             _, j = step
             if not isinstance(v, Vec):
@@ -291,6 +312,8 @@ class Executor:
                 raise Unsupported("field write into uninit aggregate")
             else:
                 raise Unsupported("field write into %r" % (v,))
+        elif k == "s":
+            v.slots[step[1]][1] = val
         elif k == "e":
             pos = step[1] - v.low
             if pos < 0 or pos >= len(v.items):
@@ -338,6 +361,16 @@ class Executor:
                 return Ref(r.box, r.path + (("f", place[2], "?"),))
             raise Unsupported("constant index into %r" % (cont,))
         raise Unsupported("place kind %s" % k)
+
+    def slot_step(self, st, cont, idx_term):
+        """path step for element idx_term of a slotted vector (bounds already established)"""
+        key = str(z3.simplify(idx_term))
+        if key not in cont.slots:
+            for k2, (t2, _) in cont.slots.items():
+                if self.feasible(st, t2 == idx_term):
+                    raise Unsupported("heap slots %s and %s may alias" % (key, k2))
+            cont.slots[key] = [idx_term, mk_sym(self.tc, cont.elem_ty, "%s@%s" % (cont.prefix[0], key))]
+        return ("s", key)
 
     def vec_index(self, st, cont, idx_term):
         """Position in cont.items addressed by absolute index term (bounds must already hold).
@@ -415,7 +448,7 @@ class Executor:
                 ch = chr(int(s[3:-1], 16))
             return Int(z3.BitVecVal(ord(ch), 32), 32, False)
         if t.startswith('"') or t.startswith('b"'):
-            return Opaque("&str", z3.Const("strlit!" + t, opaque_sort("&str")))
+            return Ref(Box(Opaque("str", z3.Const("strlit!" + t[:60], opaque_sort("str"))), name="strlit!" + t[:40]))
         # enum unit variant constant:  Option::<T>::None  /  Result::<Infallible, E> ...
         m = re.fullmatch(r"(.*?)::([A-Z][A-Za-z0-9_]*)", strip_generics(t))
         if m and base_name(m.group(1)) in self.defs.enums:
@@ -430,10 +463,27 @@ class Executor:
             bn = base_name(split_generic(strip_ty(want_ty))[0])
             if bn in self.defs.enums and any(v == t for v, _, _ in self.defs.enums[bn]):
                 return Enum(strip_ty(want_ty), t, None)
+        # promoted constant of the current function
+        pm = re.search(r"::(promoted\[\d+\])$", t)
+        if pm and fr is not None:
+            key = "const %s::%s" % (fr.fn.name, pm.group(1))
+            if key in self.funcs:
+                return self.eval_const_body(st, self.funcs[key])
+            # closures / nested items: try by suffix
+            suf = "::" + self._last_seg(t[: -len(pm.group(0))]) + pm.group(0)
+            cands = [k for k in self.funcs if k.startswith("const ") and k.endswith(suf)]
+            if len(cands) == 1:
+                return self.eval_const_body(st, self.funcs[cands[0]])
+            raise Unsupported("promoted constant not found: " + t)
         # named constant / static with a MIR body
         for key in ("const " + t, "static " + t):
             if key in self.funcs:
                 return self.eval_const_body(st, self.funcs[key])
+        if re.fullmatch(r"[A-Za-z_][A-Za-z0-9_:]*", t) and not t.startswith(("core::", "std::")):
+            seg = t.split("::")[-1]
+            cands = [k for k in self.const_index.get(seg, []) if ("const " + t).endswith(k[6:]) or k[6:].endswith(t)]
+            if len(cands) == 1:
+                return self.eval_const_body(st, self.funcs[cands[0]])
         # promoted
         # fn item
         f = None
@@ -452,8 +502,16 @@ class Executor:
         return Opaque("const", z3.Const("const!" + t[:80], opaque_sort(want_ty or "const")))
 
     def eval_const_body(self, st, f):
-        sub = Executor.__new__(Executor)
-        sub.__dict__.update(self.__dict__)
+        try:
+            return self.eval_const_body0(st, f)
+        except Unsupported:
+            k, info = self.tc.kind(f.ret)
+            if k == "opaque":
+                # e.g. arcstr::literal! tables: an opaque constant identified by its name
+                return Opaque(strip_ty(f.ret), z3.Const("const!" + f.name[6:][:80], opaque_sort(strip_ty(f.ret))))
+            raise
+
+    def eval_const_body0(self, st, f):
         st2 = PathState()
         st2.pc = list(st.pc)
         fr = Frame(f)
@@ -703,7 +761,9 @@ class Executor:
                 return self.const_value(st, fr, path, dest_ty)
             raise Unsupported("aggregate " + path)
         if k == "closure":
-            return FnVal(rv[1])
+            caps = rv[2] if len(rv) > 2 else []
+            env = Struct("closure-env", {i: self.eval_operand(st, fr, o) for i, (n, o) in enumerate(caps)}) if caps else None
+            return FnVal(rv[1], env)
         if k == "array":
             return Vec("?", None, [self.eval_operand(st, fr, o) for o in rv[1]])
         if k == "repeat":
@@ -793,6 +853,8 @@ class Executor:
         base_depth = len(st0.frames) - 1
         while work:
             st = work.pop()
+            if self.path_budget is not None and len(outs) + len(work) > self.path_budget:
+                raise Unsupported("path budget %d exceeded" % self.path_budget)
             try:
                 res = self.run_path(st, work, base_depth)
                 if res is not None:
@@ -980,6 +1042,17 @@ class Executor:
             if re.search(pat, callee_name):
                 val = fnp(self, st, fr, callee_name, args)
                 return self.finish_call(st, fr, dest, ret_bb, val, work)
+        # std blanket impls through references:  <&A as PartialEq<&B>>::eq(&&a, &&b) == <A as PartialEq<B>>::eq(&a, &b)
+        while True:
+            mm = re.match(r"^<&(?:mut )?(.*) as (PartialEq|PartialOrd|Ord)(?:<&(?:mut )?(.*)>)?>::(\w+)$", callee_name)
+            if not mm or len(args) != 2 or not all(isinstance(a, Ref) for a in args):
+                break
+            a0 = self.get_at(st, args[0].box, args[0].path)
+            a1 = self.get_at(st, args[1].box, args[1].path)
+            if not (isinstance(a0, Ref) and isinstance(a1, Ref)):
+                break
+            args = [a0, a1]
+            callee_name = "<%s as %s%s>::%s" % (mm.group(1), mm.group(2), ("<%s>" % mm.group(3)) if mm.group(3) and strip_ty(mm.group(3)) != strip_ty(mm.group(1)) else "", mm.group(4))
         # Fn* trait shims:  <F as FnOnce<Args>>::call_once(f, (args,))
         m = re.match(r"^<(.*) as Fn(Once|Mut)?<.*>>::call(_once|_mut)?$", callee_name)
         if m and isinstance(args[0], (FnVal, Ref)):
@@ -998,6 +1071,7 @@ class Executor:
             if fnval is not None or not (args and isinstance(args[0], (FnVal, Ref))):
                 # calling a reified closure pointer: closure body takes the env first
                 args = [FnVal(callee_name)] + args
+            args = self.closure_self(target, args)
         else:
             target = self.resolve(callee_name, args)
         if target is not None:
@@ -1036,8 +1110,21 @@ class Executor:
         self.goto(st, fr, ret_bb)
         return None
 
+    def closure_self(self, target, args):
+        """first argument of a closure body: the env by value or behind a reference, as its MIR expects"""
+        if not args:
+            return args
+        p0 = strip_ty(target.params[0][1])
+        a0 = args[0]
+        if p0.startswith("&") and isinstance(a0, FnVal):
+            a0 = Ref(Box(a0, name=self.fresh_name("closure-env")))
+        elif not p0.startswith("&") and isinstance(a0, Ref):
+            a0 = self.get_at(None, a0.box, a0.path)
+        return [a0] + list(args[1:])
+
     def find_closure(self, name):
         # '{closure@src/arith.rs:13:21: 13:25}' -> function whose first param type is this closure
+        name = name.split("}")[0] + "}"
         for f in self.funcs.values():
             if f.params and name in f.params[0][1] and "{closure#" in f.name:
                 return f
@@ -1098,8 +1185,33 @@ def run_function(ex, fn, args, pc=None, ghost=None):
 
 # --------------------------------------------------------------------------- equality & float helpers
 
+_MODTAGS = [False]
+
+
+def veq_modtags(ex, a, b):
+    """equality as the language sees it: tag wrappers are transparent at every level (Cell::eq)"""
+    _MODTAGS[0] = True
+    try:
+        return veq(ex, a, b)
+    finally:
+        _MODTAGS[0] = False
+
+
+def _untag(ex, c):
+    for _ in range(3):
+        if isinstance(c, Enum) and c.variant == "WithTag" and base_name(split_generic(strip_ty(c.ty))[0]) == "Cell":
+            rc = ex.summ.payload(c, 0, "std::rc::Rc<cell::WithTag>")
+            wt = ex.get_at(None, rc.box, rc.path)
+            c = ex.step_get(None, wt, ("f", 1, "cell::Cell"))
+        else:
+            break
+    return c
+
+
 def veq(ex, a, b):
     """z3 formula: values a and b are structurally equal."""
+    if _MODTAGS[0] and isinstance(a, Enum) and isinstance(b, Enum):
+        a, b = _untag(ex, a), _untag(ex, b)
     if isinstance(a, Int) and isinstance(b, Int):
         return a.t == b.t
     if isinstance(a, Bool) and isinstance(b, Bool):
@@ -1145,7 +1257,9 @@ def veq(ex, a, b):
         if a.variant is None and b.variant is None:
             if a.origin == b.origin:
                 return z3.BoolVal(True)
-            raise Unsupported("equality of two uninspected enums %s / %s" % (a.origin, b.origin))
+            # two different never-inspected values: equal or not, the solver may choose (sound over-approximation)
+            srt = opaque_sort("lazy_enum")
+            return z3.And(a.discr == b.discr, z3.Const(a.origin, srt) == z3.Const(b.origin, srt))
         if a.variant is None or b.variant is None:
             sym, con = (a, b) if a.variant is None else (b, a)
             d = ex.enum_index(con.ty, con.variant)
@@ -1189,6 +1303,24 @@ def veq(ex, a, b):
         if len(a.items) != len(b.items):
             return z3.BoolVal(False)
         cs += [veq(ex, x, y) for x, y in zip(a.items, b.items)]
+        if a.slots is not None or b.slots is not None:
+            sa, sb = a.slots or {}, b.slots or {}
+            for k in set(sa) | set(sb):
+                if k in sa and k in sb:
+                    cs.append(veq(ex, sa[k][1], sb[k][1]))
+                else:
+                    have = sa[k] if k in sa else sb[k]
+                    other = mk_sym(ex.tc, a.elem_ty, "%s@%s" % (pa[0], k))
+                    cs.append(veq(ex, have[1], other))
+        return z3.And(*cs) if cs else z3.BoolVal(True)
+    if isinstance(a, PMap) and isinstance(b, PMap):
+        if (a.base is None) != (b.base is None) or len(a.entries) != len(b.entries):
+            if a.base is None and b.base is None:
+                return z3.BoolVal(False) if len(a.entries) != len(b.entries) else z3.BoolVal(True)
+            raise Unsupported("equality of persistent maps with different write histories")
+        cs = [a.base == b.base] if a.base is not None else []
+        for (k1, v1), (k2, v2) in zip(a.entries, b.entries):
+            cs += [veq(ex, k1, k2), veq(ex, v1, v2)]
         return z3.And(*cs) if cs else z3.BoolVal(True)
     if isinstance(a, Uninit) or isinstance(b, Uninit):
         return z3.BoolVal(isinstance(a, Uninit) and isinstance(b, Uninit))
@@ -1207,6 +1339,8 @@ def sym_like(ex, v, name):
         return v
     if isinstance(v, Opaque):
         return Opaque(v.ty, z3.Const(name, v.term.sort()))
+    if isinstance(v, PMap):
+        return PMap(v.ty, z3.Const(name, opaque_sort("rpds::RedBlackTreeMap")), [])
     if isinstance(v, Struct):
         return Struct(v.ty, {}, origin=name)
     if isinstance(v, Enum):
